@@ -8,6 +8,7 @@ Open Scope Qc_scope.
 
 (** * shapes of the links at a rock cell *)
 Section Shapes.
+Set Default Proof Using "All".
 Variable g : rgeo.
 Hypothesis W : wf g.
 
@@ -18,7 +19,7 @@ Lemma vlink_up k i j : (2 <= k <= nz g)%nat -> has g (k - 1) i j = true ->
   vlink g k (i, j) = Some (mkLink (Cell k i j) (Cell (k - 1) i j) 3 (top g k - lcen g k) (zc g (k - 1) i j - bot g (k - 1)) (area g i j)).
 Proof.
   intros Hk Hh. unfold vlink. replace (k =? 1)%nat with false by (symmetry; apply Nat.eqb_neq; lia).
-  pose proof (has_above_surface g k i j Hk Hh) as T.
+  pose proof (has_above_surface g W k i j Hk Hh) as T.
   assert (E : qle (gsurf g i j) (top g k) = false) by qc_lra. rewrite E. reflexivity.
 Qed.
 (** the top block of a column: no block above it *)
@@ -26,7 +27,7 @@ Definition is_top (k i j : nat) : Prop := k = 1%nat \/ has g (k - 1) i j = false
 Lemma vlink_top_cond k i j : (1 <= k <= nz g)%nat -> is_top k i j -> (k =? 1)%nat || qle (gsurf g i j) (top g k) = true.
 Proof.
   intros Hk [->|Hh]; [reflexivity|]. destruct (Nat.eqb_spec k 1); [reflexivity|]. cbn [orb].
-  pose proof (no_above_surface g k i j ltac:(lia) Hh). qc_lra.
+  pose proof (no_above_surface g W k i j ltac:(lia) Hh). qc_lra.
 Qed.
 Lemma vlink_top k i j : (1 <= k <= nz g)%nat -> is_top k i j ->
   vlink g k (i, j) =
@@ -84,6 +85,7 @@ End Shapes.
 
 (** * next_block_in_direction on the generated grid *)
 Section Walks.
+Set Default Proof Using "All".
 Variable K : Type.
 Variable keqb : K -> K -> bool.
 Hypothesis keqb_spec : forall a b, keqb a b = true <-> a = b.
@@ -99,8 +101,8 @@ Hypothesis ACT : forall k i j, present g (Cell (S k) i j) -> volume g (S k) i j 
 Hypothesis INACT : gatm g <> 2%nat -> vol_ok (Some av) (gatmvol g) = false.
 
 Notation GG := (G K g nm cn).
-Let NBS := next_block_some K keqb keqb_spec g nm nm_inj cn CN.
-Let NBN := next_block_none K keqb keqb_spec g nm nm_inj cn CN.
+Local Notation NBS := (next_block_some K keqb keqb_spec g nm nm_inj cn CN).
+Local Notation NBN := (next_block_none K keqb keqb_spec g nm nm_inj cn CN).
 Definition blk (c : cid) : block K := mk_block nm (cellof g c).
 Definition key (l : linkrec) : K * K := (nm (la l), nm (lb l)).
 Definition mvok (mv : option Qc) : Prop := mv = None \/ mv = Some av.
@@ -117,23 +119,12 @@ Proof.
   intros [->|[i [j ->]]] P; cbn [cellof cvol]; apply INACT; cbn in P; [|destruct P as [P _]]; rewrite P; discriminate.
 Qed.
 
-Lemma present_rock k i j : present g (Cell k i j) -> (1 <= k)%nat ->
-  (1 <= k <= nz g)%nat /\ (i < nx g)%nat /\ (j < ny g)%nat /\ has g k i j = true.
-Proof. destruct k; [lia|]. cbn. tauto. Qed.
-Lemma rock_present k i j : (1 <= k <= nz g)%nat -> (i < nx g)%nat -> (j < ny g)%nat -> has g k i j = true -> present g (Cell k i j).
-Proof. destruct k; [lia|]. cbn. tauto. Qed.
-
-Lemma other_la l c : la l = c -> other l c = lb l.
-Proof. intros <-. unfold other. rewrite cid_eqb_refl. reflexivity. Qed.
-Lemma other_lb l c : la l <> c -> other l c = la l.
-Proof. intros H. unfold other. apply cid_eqb_neq in H. rewrite H. reflexivity. Qed.
-
 (** ** direction 1 *)
 Definition last1 (k i j : nat) : option cid := match i with O => None | S i' => Some (Cell k i' j) end.
 Lemma next1_some mv k i j : mvok mv -> (1 <= k)%nat -> present g (Cell k i j) -> (S i < nx g)%nat -> has g k (S i) j = true ->
   next_block K keqb GG (nm (Cell k i j)) (option_map nm (last1 k i j)) 1 mv = Some (blk (Cell k (S i) j), key (xlink g k i j)).
 Proof.
-  intros MV Hk P Hi Hh. destruct (present_rock k i j P Hk) as [Hk' [Hi' [Hj' Hh']]].
+  intros MV Hk P Hi Hh. destruct (present_rock g k i j P Hk) as [Hk' [Hi' [Hj' Hh']]].
   assert (S0 : link_shape g (xlink g k i j)) by (apply LX; auto).
   rewrite (NBS (Cell k i j) (last1 k i j) 1 mv (xlink g k i j)).
   - rewrite other_la by reflexivity. reflexivity.
@@ -142,17 +133,17 @@ Proof.
   - split; [exact S0|]. split; [left; reflexivity|]. split; [reflexivity|]. split.
     + destruct i; cbn; [exact I|]. split; intro X; inversion X; lia.
     + rewrite other_la by reflexivity. cbn [xlink lb]. destruct k; [lia|]. apply volok_rock; [exact MV|]. cbn. repeat split; auto; lia.
-  - intros l' [S' [I' [D' [L' V']]]]. destruct (shape_dir1 g l' k i j S' D' I') as [[-> _]|[i' [-> ->]]]; [reflexivity|].
+  - intros l' [S' [I' [D' [L' V']]]]. destruct (shape_dir1 g W l' k i j S' D' I') as [[-> _]|[i' [-> ->]]]; [reflexivity|].
     cbn in L'. destruct L' as [L' _]. exfalso. apply L'. reflexivity.
 Qed.
 Lemma next1_none mv k i j : (1 <= k)%nat -> present g (Cell k i j) -> ((S i < nx g)%nat -> has g k (S i) j = false) ->
   next_block K keqb GG (nm (Cell k i j)) (option_map nm (last1 k i j)) 1 mv = None.
 Proof.
-  intros Hk P Hn. destruct (present_rock k i j P Hk) as [Hk' [Hi' [Hj' Hh']]].
+  intros Hk P Hn. destruct (present_rock g k i j P Hk) as [Hk' [Hi' [Hj' Hh']]].
   apply NBN.
   - exact P.
   - intros x Hx. destruct i; cbn in Hx; inversion Hx; subst. cbn. lia.
-  - intros l' [S' [I' [D' [L' V']]]]. destruct (shape_dir1 g l' k i j S' D' I') as [[-> [A B]]|[i' [-> ->]]].
+  - intros l' [S' [I' [D' [L' V']]]]. destruct (shape_dir1 g W l' k i j S' D' I') as [[-> [A B]]|[i' [-> ->]]].
     + rewrite (Hn A) in B. discriminate.
     + cbn in L'. destruct L' as [L' _]. apply L'. reflexivity.
 Qed.
@@ -162,7 +153,7 @@ Definition last2 (k i j : nat) : option cid := match j with O => None | S j' => 
 Lemma next2_some mv k i j : mvok mv -> (1 <= k)%nat -> present g (Cell k i j) -> (S j < ny g)%nat -> has g k i (S j) = true ->
   next_block K keqb GG (nm (Cell k i j)) (option_map nm (last2 k i j)) 2 mv = Some (blk (Cell k i (S j)), key (ylink g k i j)).
 Proof.
-  intros MV Hk P Hj Hh. destruct (present_rock k i j P Hk) as [Hk' [Hi' [Hj' Hh']]].
+  intros MV Hk P Hj Hh. destruct (present_rock g k i j P Hk) as [Hk' [Hi' [Hj' Hh']]].
   assert (S0 : link_shape g (ylink g k i j)) by (apply LY; auto).
   rewrite (NBS (Cell k i j) (last2 k i j) 2 mv (ylink g k i j)).
   - rewrite other_la by reflexivity. reflexivity.
@@ -171,17 +162,17 @@ Proof.
   - split; [exact S0|]. split; [left; reflexivity|]. split; [reflexivity|]. split.
     + destruct j; cbn; [exact I|]. split; intro X; inversion X; lia.
     + rewrite other_la by reflexivity. cbn [ylink lb]. destruct k; [lia|]. apply volok_rock; [exact MV|]. cbn. repeat split; auto; lia.
-  - intros l' [S' [I' [D' [L' V']]]]. destruct (shape_dir2 g l' k i j S' D' I') as [[-> _]|[j' [-> ->]]]; [reflexivity|].
+  - intros l' [S' [I' [D' [L' V']]]]. destruct (shape_dir2 g W l' k i j S' D' I') as [[-> _]|[j' [-> ->]]]; [reflexivity|].
     cbn in L'. destruct L' as [L' _]. exfalso. apply L'. reflexivity.
 Qed.
 Lemma next2_none mv k i j : (1 <= k)%nat -> present g (Cell k i j) -> ((S j < ny g)%nat -> has g k i (S j) = false) ->
   next_block K keqb GG (nm (Cell k i j)) (option_map nm (last2 k i j)) 2 mv = None.
 Proof.
-  intros Hk P Hn. destruct (present_rock k i j P Hk) as [Hk' [Hi' [Hj' Hh']]].
+  intros Hk P Hn. destruct (present_rock g k i j P Hk) as [Hk' [Hi' [Hj' Hh']]].
   apply NBN.
   - exact P.
   - intros x Hx. destruct j; cbn in Hx; inversion Hx; subst. cbn. lia.
-  - intros l' [S' [I' [D' [L' V']]]]. destruct (shape_dir2 g l' k i j S' D' I') as [[-> [A B]]|[j' [-> ->]]].
+  - intros l' [S' [I' [D' [L' V']]]]. destruct (shape_dir2 g W l' k i j S' D' I') as [[-> [A B]]|[j' [-> ->]]].
     + rewrite (Hn A) in B. discriminate.
     + cbn in L'. destruct L' as [L' _]. apply L'. reflexivity.
 Qed.
@@ -207,38 +198,38 @@ Proof.
 Qed.
 Lemma latt_last_below last k i j : present g (Cell k i j) -> (1 <= k)%nat -> from_below last k i j -> forall x, last = Some x -> latt g x.
 Proof.
-  intros P Hk [[-> _]|[-> Hs]] x Hx; inversion Hx; subst. destruct (present_rock k i j P Hk) as [Hk' [Hi' [Hj' Hh']]]. cbn. lia.
+  intros P Hk [[-> _]|[-> Hs]] x Hx; inversion Hx; subst. destruct (present_rock g k i j P Hk) as [Hk' [Hi' [Hj' Hh']]]. cbn. lia.
 Qed.
 Lemma latt_last_above last k i j : present g (Cell k i j) -> (1 <= k)%nat -> from_above last k i j -> forall x, last = Some x -> latt g x.
 Proof.
-  intros P Hk [[-> _]|[-> Hs]] x Hx; inversion Hx; subst. destruct (present_rock k i j P Hk) as [Hk' [Hi' [Hj' Hh']]]. cbn. lia.
+  intros P Hk [[-> _]|[-> Hs]] x Hx; inversion Hx; subst. destruct (present_rock g k i j P Hk) as [Hk' [Hi' [Hj' Hh']]]. cbn. lia.
 Qed.
 Lemma below_excluded last k i j l' : from_below last k i j -> vlink g (S k) (i, j) = Some l' -> (S k <= nz g)%nat -> lastok last l' -> False.
 Proof.
-  intros [[-> E]|[-> Hs]] V Hk L; [lia|]. apply vlink_dir in V. destruct V as [_ V]. cbn in L. destruct L as [L _]. apply L. exact V.
+  intros [[-> E]|[-> Hs]] V Hk L; [lia|]. apply (vlink_dir g W) in V. destruct V as [_ V]. cbn in L. destruct L as [L _]. apply L. exact V.
 Qed.
 Lemma top_link_inactive k i j l' : (1 <= k <= nz g)%nat -> (i < nx g)%nat -> (j < ny g)%nat -> is_top g k i j -> vlink g k (i, j) = Some l' ->
   vol_ok (Some av) (cvol (cellof g (other l' (Cell k i j)))) = false.
 Proof.
-  intros Hk Hi Hj T V. destruct (atm_cases g) as [A|[A|A]].
-  - rewrite (vlink_top0 g k i j Hk T A) in V. inversion V; subst.
+  intros Hk Hi Hj T V. destruct (atm_cases g W) as [A|[A|A]].
+  - rewrite (vlink_top0 g W k i j Hk T A) in V. inversion V; subst.
     rewrite other_la by reflexivity. cbn [lb]. apply volok_atm; [left; reflexivity|exact A].
-  - rewrite (vlink_top1 g k i j Hk T A) in V. inversion V; subst.
+  - rewrite (vlink_top1 g W k i j Hk T A) in V. inversion V; subst.
     rewrite other_la by reflexivity. cbn [lb]. apply volok_atm; [right; eauto|]. cbn. auto.
-  - rewrite (vlink_top2 g k i j Hk T A) in V. discriminate.
+  - rewrite (vlink_top2 g W k i j Hk T A) in V. discriminate.
 Qed.
 Lemma above_excluded last k i j l' : (1 <= k <= nz g)%nat -> (i < nx g)%nat -> (j < ny g)%nat -> from_above last k i j ->
   vlink g k (i, j) = Some l' -> lastok last l' -> vol_ok (Some av) (cvol (cellof g (other l' (Cell k i j)))) = true -> False.
 Proof.
   intros Hk Hi Hj [[-> T]|[-> [K2 Hh]]] V L O.
   - rewrite (top_link_inactive k i j l' Hk Hi Hj T V) in O. discriminate.
-  - rewrite (vlink_up g k i j ltac:(lia) Hh) in V. inversion V; subst. cbn in L. destruct L as [_ L]. apply L. reflexivity.
+  - rewrite (vlink_up g W k i j ltac:(lia) Hh) in V. inversion V; subst. cbn in L. destruct L as [_ L]. apply L. reflexivity.
 Qed.
 
 Lemma next3_up_some last k i j : (2 <= k)%nat -> present g (Cell k i j) -> has g (k - 1) i j = true -> from_below last k i j ->
   next_block K keqb GG (nm (Cell k i j)) (option_map nm last) 3 (Some av) = Some (blk (Cell (k - 1) i j), key (uplink k i j)).
 Proof.
-  intros Hk P Hh FB. destruct (present_rock k i j P ltac:(lia)) as [Hk' [Hi' [Hj' Hh']]].
+  intros Hk P Hh FB. destruct (present_rock g k i j P ltac:(lia)) as [Hk' [Hi' [Hj' Hh']]].
   assert (S0 := uplink_shape k i j ltac:(lia) Hi' Hj' Hh).
   rewrite (NBS (Cell k i j) last 3 (Some av) (uplink k i j)).
   - rewrite other_la by reflexivity. reflexivity.
@@ -248,18 +239,18 @@ Proof.
     + destruct FB as [[-> _]|[-> _]]; cbn; [exact I|]. split; intro X; inversion X; lia.
     + rewrite other_la by reflexivity. cbn [uplink lb]. destruct k as [|[|k]]; try lia. cbn [Nat.sub]. replace (S k - 0)%nat with (S k) by lia.
       apply volok_rock; [right; reflexivity|]. cbn [Nat.sub] in Hh. replace (S k - 0)%nat with (S k) in Hh by lia. cbn. repeat split; auto; lia.
-  - intros l' [S' [I' [D' [L' V']]]]. destruct (shape_dir3 g l' k i j S' D' I' ltac:(lia)) as [V|[V [_ Hs]]].
-    + rewrite (vlink_up g k i j ltac:(lia) Hh) in V. inversion V. reflexivity.
+  - intros l' [S' [I' [D' [L' V']]]]. destruct (shape_dir3 g W l' k i j S' D' I' ltac:(lia)) as [V|[V [_ Hs]]].
+    + rewrite (vlink_up g W k i j ltac:(lia) Hh) in V. inversion V. reflexivity.
     + exfalso. exact (below_excluded last k i j l' FB V Hs L').
 Qed.
 Lemma next3_up_none last k i j : (1 <= k)%nat -> present g (Cell k i j) -> is_top g k i j -> from_below last k i j ->
   next_block K keqb GG (nm (Cell k i j)) (option_map nm last) 3 (Some av) = None.
 Proof.
-  intros Hk P T FB. destruct (present_rock k i j P Hk) as [Hk' [Hi' [Hj' Hh']]].
+  intros Hk P T FB. destruct (present_rock g k i j P Hk) as [Hk' [Hi' [Hj' Hh']]].
   apply NBN.
   - exact P.
   - apply (latt_last_below last k i j P Hk FB).
-  - intros l' [S' [I' [D' [L' V']]]]. destruct (shape_dir3 g l' k i j S' D' I' Hk) as [V|[V [_ Hs]]].
+  - intros l' [S' [I' [D' [L' V']]]]. destruct (shape_dir3 g W l' k i j S' D' I' Hk) as [V|[V [_ Hs]]].
     + rewrite (top_link_inactive k i j l' Hk' Hi' Hj' T V) in V'. discriminate.
     + exact (below_excluded last k i j l' FB V Hs L').
 Qed.
@@ -268,41 +259,41 @@ Lemma next3_atm_gen last k i j a : (1 <= k)%nat -> present g (Cell k i j) -> is_
   vlink g k (i, j) = Some (atmlink k i j a) -> (a = Atm0 \/ a = Cell 0 i j) ->
   next_block K keqb GG (nm (Cell k i j)) (option_map nm last) 3 None = Some (blk a, key (atmlink k i j a)).
 Proof.
-  intros Hk P T FB VT AA. destruct (present_rock k i j P Hk) as [Hk' [Hi' [Hj' Hh']]].
+  intros Hk P T FB VT AA. destruct (present_rock g k i j P Hk) as [Hk' [Hi' [Hj' Hh']]].
   assert (LL := latt_last_below last k i j P Hk FB).
   assert (S0 : link_shape g (atmlink k i j a)) by (apply (LV g k i j); auto).
   rewrite (NBS (Cell k i j) last 3 None (atmlink k i j a)); [rewrite other_la by reflexivity; reflexivity|exact P|exact LL| |].
   - split; [exact S0|]. split; [left; reflexivity|]. split; [reflexivity|]. split; [|reflexivity].
     destruct FB as [[-> _]|[-> _]]; cbn [lastok]; [exact I|]. cbn [atmlink la lb].
     split; intro X; inversion X; try lia. destruct AA as [AA|AA]; rewrite AA in *; discriminate.
-  - intros l' [S' [I' [D' [L' V']]]]. destruct (shape_dir3 g l' k i j S' D' I' Hk) as [V|[V [_ Hs]]].
+  - intros l' [S' [I' [D' [L' V']]]]. destruct (shape_dir3 g W l' k i j S' D' I' Hk) as [V|[V [_ Hs]]].
     + rewrite VT in V. inversion V. reflexivity.
     + exfalso. exact (below_excluded last k i j l' FB V Hs L').
 Qed.
 Lemma next3_atm0 last k i j : (1 <= k)%nat -> present g (Cell k i j) -> is_top g k i j -> from_below last k i j -> gatm g = 0%nat ->
   next_block K keqb GG (nm (Cell k i j)) (option_map nm last) 3 None = Some (blk Atm0, key (atmlink k i j Atm0)).
 Proof.
-  intros Hk P T FB A. destruct (present_rock k i j P Hk) as [Hk' _]. apply next3_atm_gen; auto. apply vlink_top0; auto.
+  intros Hk P T FB A. destruct (present_rock g k i j P Hk) as [Hk' _]. apply next3_atm_gen; auto. apply vlink_top0; auto.
 Qed.
 Lemma next3_atm1 last k i j : (1 <= k)%nat -> present g (Cell k i j) -> is_top g k i j -> from_below last k i j -> gatm g = 1%nat ->
   next_block K keqb GG (nm (Cell k i j)) (option_map nm last) 3 None = Some (blk (Cell 0 i j), key (atmlink k i j (Cell 0 i j))).
 Proof.
-  intros Hk P T FB A. destruct (present_rock k i j P Hk) as [Hk' _]. apply next3_atm_gen; auto. apply vlink_top1; auto.
+  intros Hk P T FB A. destruct (present_rock g k i j P Hk) as [Hk' _]. apply next3_atm_gen; auto. apply vlink_top1; auto.
 Qed.
 Lemma next3_atm2 last k i j : (1 <= k)%nat -> present g (Cell k i j) -> is_top g k i j -> from_below last k i j -> (2 <= gatm g)%nat ->
   next_block K keqb GG (nm (Cell k i j)) (option_map nm last) 3 None = None.
 Proof.
-  intros Hk P T FB A. destruct (present_rock k i j P Hk) as [Hk' [Hi' [Hj' Hh']]].
+  intros Hk P T FB A. destruct (present_rock g k i j P Hk) as [Hk' [Hi' [Hj' Hh']]].
   apply NBN; [exact P|exact (latt_last_below last k i j P Hk FB)|].
-  intros l' [S' [I' [D' [L' V']]]]. destruct (shape_dir3 g l' k i j S' D' I' Hk) as [V|[V [_ Hs]]].
-  - rewrite (vlink_top2 g k i j Hk' T A) in V. discriminate.
+  intros l' [S' [I' [D' [L' V']]]]. destruct (shape_dir3 g W l' k i j S' D' I' Hk) as [V|[V [_ Hs]]].
+  - rewrite (vlink_top2 g W k i j Hk' T A) in V. discriminate.
   - exact (below_excluded last k i j l' FB V Hs L').
 Qed.
 
 Lemma next3_down_some last k i j : (1 <= k)%nat -> (k < nz g)%nat -> present g (Cell k i j) -> from_above last k i j ->
   next_block K keqb GG (nm (Cell k i j)) (option_map nm last) 3 (Some av) = Some (blk (Cell (S k) i j), key (uplink (S k) i j)).
 Proof.
-  intros Hk Hn P FA. destruct (present_rock k i j P Hk) as [Hk' [Hi' [Hj' Hh']]].
+  intros Hk Hn P FA. destruct (present_rock g k i j P Hk) as [Hk' [Hi' [Hj' Hh']]].
   assert (Hh1 : has g (S k - 1) i j = true) by (replace (S k - 1)%nat with k by lia; exact Hh').
   assert (S0 := uplink_shape (S k) i j ltac:(lia) Hi' Hj' Hh1).
   assert (LB : lb (uplink (S k) i j) = Cell k i j) by (cbn [uplink lb]; replace (S k - 1)%nat with k by lia; reflexivity).
@@ -314,18 +305,18 @@ Proof.
     + destruct FA as [[-> _]|[-> [K2 _]]]; cbn [lastok]; [exact I|]. rewrite LB. cbn [uplink la]. split; intro X; inversion X; lia.
     + rewrite other_lb by (cbn [uplink la]; intro X; inversion X; lia). cbn [uplink la].
       apply volok_rock; [right; reflexivity|]. apply rock_present; auto; try lia. apply (has_mono g W k (S k) i j Hh'); lia.
-  - intros l' [S' [I' [D' [L' V']]]]. destruct (shape_dir3 g l' k i j S' D' I' Hk) as [V|[V [_ Hs]]].
+  - intros l' [S' [I' [D' [L' V']]]]. destruct (shape_dir3 g W l' k i j S' D' I' Hk) as [V|[V [_ Hs]]].
     + exfalso. exact (above_excluded last k i j l' Hk' Hi' Hj' FA V L' V').
-    + rewrite (vlink_up g (S k) i j ltac:(lia) Hh1) in V. inversion V. reflexivity.
+    + rewrite (vlink_up g W (S k) i j ltac:(lia) Hh1) in V. inversion V. reflexivity.
 Qed.
 Lemma next3_down_none last k i j : k = nz g -> present g (Cell k i j) -> from_above last k i j ->
   next_block K keqb GG (nm (Cell k i j)) (option_map nm last) 3 (Some av) = None.
 Proof.
-  intros Hn P FA. pose proof (wf_nz g W) as NZ. destruct (present_rock k i j P ltac:(lia)) as [Hk' [Hi' [Hj' Hh']]].
+  intros Hn P FA. pose proof (wf_nz g W) as NZ. destruct (present_rock g k i j P ltac:(lia)) as [Hk' [Hi' [Hj' Hh']]].
   apply NBN.
   - exact P.
   - apply (latt_last_above last k i j P ltac:(lia) FA).
-  - intros l' [S' [I' [D' [L' V']]]]. destruct (shape_dir3 g l' k i j S' D' I' ltac:(lia)) as [V|[V [_ Hs]]].
+  - intros l' [S' [I' [D' [L' V']]]]. destruct (shape_dir3 g W l' k i j S' D' I' ltac:(lia)) as [V|[V [_ Hs]]].
     + exact (above_excluded last k i j l' Hk' Hi' Hj' FA V L' V').
     + lia.
 Qed.
